@@ -417,9 +417,16 @@ func checkResultFresh(r *Report, rName *Rule, ruleID string, fp *ssa.Function) {
 		if !ok || !isNilConst(retVal(ret, 1)) {
 			return
 		}
-		for _, x := range valueRoots(retVal(ret, 0), func(n string) bool {
-			return "(*bytes.Buffer).Bytes" == n || "fmt.Sprintf" == n || "fmt.Appendf" == n || "fmt.Append" == n || "fmt.Appendln" == n || "bytes.Clone" == n || "slices.Clone" == n
-		}) {
+		var roots []Root
+		for _, d := range appendDests(retVal(ret, 0)) {
+			roots = append(roots, valueRoots(d, func(n string) bool {
+				return "(*bytes.Buffer).Bytes" == n || "fmt.Sprintf" == n || "fmt.Appendf" == n || "fmt.Append" == n || "fmt.Appendln" == n || "bytes.Clone" == n || "slices.Clone" == n
+			})...)
+		}
+		for _, x := range roots {
+			if _, isMk := x.V.(*ssa.MakeSlice); isMk {
+				continue
+			}
 			switch x.Kind {
 			case "alloc", "const", "param":
 			case "call":
